@@ -220,7 +220,7 @@ func handlePanic(t *T, recovered any) {
 		t.logger.Error("recovered panic in scenario",
 			log.StackTraceAttr(stack),
 			log.IterationAttr(t.Iteration),
-			log.ErrorAttr(err),
+			log.ErrorStringAttr(panicErrorMessage(err)),
 		)
 		t.Fail()
 	default:
@@ -232,6 +232,19 @@ func handlePanic(t *T, recovered any) {
 		)
 		t.Fail()
 	}
+}
+
+// panicErrorMessage returns err.Error(), surviving an Error method that panics itself
+// (typically a nil pointer of an error type whose method reads a field): a second panic
+// inside the recovery would escape the iteration and take the process down.
+func panicErrorMessage(err error) (msg string) {
+	defer func() {
+		if r := recover(); r != nil {
+			msg = fmt.Sprintf("%T (its Error method panicked: %v)", err, r)
+		}
+	}()
+
+	return err.Error()
 }
 
 func (t *T) teardown() {
